@@ -5,9 +5,14 @@ package faults
 
 import (
 	"bytes"
+	"context"
 	"fmt"
+	"io"
+	"net"
+	"time"
 
 	"github.com/hashicorp/nodeenrollment"
+	"github.com/hashicorp/nodeenrollment/protocol"
 	"github.com/hashicorp/nodeenrollment/registration"
 	"github.com/hashicorp/nodeenrollment/rotation"
 	"github.com/hashicorp/nodeenrollment/storage/inmem"
@@ -285,6 +290,87 @@ func (e *env) prepare(flow string) (func() outcome, error) {
 		return func() outcome {
 			got, err := nc.HandleFetchNodeCredentialsResponse(ctx, e.node, resp, so()...)
 			return outcome{err: err, handed: got != nil, persisted: func() bool {
+				st, lerr := types.LoadNodeCredentials(ctx, e.node, nodeenrollment.CurrentId, so()...)
+				return lerr == nil && len(st.CertificateBundles) == 2
+			}}
+		}, nil
+	case "nodeHandleTokenRetry":
+		// server-led registration on the node side; when handling the response fails, the node handles the SAME response
+		// again with the same credentials object (the fault is one-shot)
+		e.nodeSide = true
+		_, tok, err := registration.CreateServerLedActivationToken(ctx, w.Store, &types.ServerLedRegistrationRequest{}, so()...)
+		if err != nil {
+			return nil, err
+		}
+		nopts := so(nodeenrollment.WithActivationToken(tok))
+		nc, err := types.NewNodeCredentials(ctx, e.node, nopts...)
+		if err != nil {
+			return nil, err
+		}
+		req, err := nc.CreateFetchNodeCredentialsRequest(ctx, nopts...)
+		if err != nil {
+			return nil, err
+		}
+		resp, err := registration.FetchNodeCredentials(ctx, w.Store, req, so()...)
+		if err != nil {
+			return nil, err
+		}
+		e.rec = e.nodeRec
+		return func() outcome {
+			got, err := nc.HandleFetchNodeCredentialsResponse(ctx, e.node, resp, nopts...)
+			if err != nil {
+				got, err = nc.HandleFetchNodeCredentialsResponse(ctx, e.node, resp, nopts...)
+			}
+			return outcome{err: err, handed: got != nil && err == nil, persisted: func() bool {
+				st, lerr := types.LoadNodeCredentials(ctx, e.node, nodeenrollment.CurrentId, so()...)
+				return lerr == nil && len(st.CertificateBundles) == 2
+			}}
+		}, nil
+	case "nodeDialFirst":
+		// the first protocol.Dial of an authorised node against a real listener: it fetches, stores and connects
+		e.nodeSide = true
+		nc, err := types.NewNodeCredentials(ctx, e.node, so()...)
+		if err != nil {
+			return nil, err
+		}
+		req, err := nc.CreateFetchNodeCredentialsRequest(ctx)
+		if err != nil {
+			return nil, err
+		}
+		if _, err := registration.AuthorizeNode(ctx, w.Store, req, so()...); err != nil {
+			return nil, err
+		}
+		base, err := net.Listen("tcp", "127.0.0.1:0")
+		if err != nil {
+			return nil, err
+		}
+		il, err := protocol.NewInterceptingListener(&protocol.InterceptingListenerConfiguration{Context: ctx, Storage: w.Store, BaseListener: base, Options: so()})
+		if err != nil {
+			base.Close()
+			return nil, err
+		}
+		go func() {
+			for {
+				c, err := il.Accept()
+				if err != nil {
+					if te, ok := err.(interface{ Temporary() bool }); ok && te.Temporary() {
+						continue
+					}
+					return
+				}
+				go func() { io.Copy(io.Discard, c); c.Close() }()
+			}
+		}()
+		e.rec = e.nodeRec
+		return func() outcome {
+			defer il.Close()
+			dctx, cancel := context.WithTimeout(ctx, 8*time.Second)
+			defer cancel()
+			conn, err := protocol.Dial(dctx, e.node, base.Addr().String(), so()...)
+			if conn != nil {
+				conn.Close()
+			}
+			return outcome{err: err, handed: conn != nil && err == nil, persisted: func() bool {
 				st, lerr := types.LoadNodeCredentials(ctx, e.node, nodeenrollment.CurrentId, so()...)
 				return lerr == nil && len(st.CertificateBundles) == 2
 			}}
